@@ -38,7 +38,7 @@ peg::parser! {
 
       rule reading() -> String = n:kana()+ { n.concat() }
       rule okuri() -> Option<String> = n:alphabet()* { if n.is_empty() { None } else { Some(n.concat()) } }
-      rule kanji() -> String = n:$([^ ' ' | '/' | ';']+) annotation()? "/" { n.to_string() }
+      rule kanji() -> String = n:$([^ ' ' | '\t' | '/' | ';']+) annotation()? "/" { n.to_string() }
       rule entry() -> SkkEntry = r:reading() o:okuri() space()+ "/" s:kanji()+ {
           SkkEntry {reading: r, okuri: o, words: s}
       }
